@@ -132,6 +132,10 @@ def run(P, R, tier):
     from . import C08
 
     C08.run(P, R, tier)  # the scoring kernel itself (offset sign and count weighting, guards) is part of C11's statement
+    from ..engines import memo, own as owneng
+    _own = owneng.Own(P)
+    for cn in ("FactorAnalysisBase", "ISVMachine", "JFAMachine"):
+        memo.check_class(P, R, _own, cn)
     n = 0
     n += kind.check_call_kinds(P, R, FA + "FactorAnalysisBase.score_using_array", "score")
     n += kind.check_call_kinds(P, R, FA + "FactorAnalysisBase.enroll_using_array", "enroll")
